@@ -311,19 +311,38 @@ Definition group_params (ps : list param) : list (string * list string) :=
 
 Fixpoint lower_groups (f : func) (last_func : bool) (out : func) (gs : list (string * list string)) : list matchset :=
   match gs with
-  | [] => []      (* a condition without values produces NO match set *)
+  | [] => []
   | (k, vs) :: t =>
       let o := match t with [] => if last_func then MFinal out else MAnd | _ => MOr end in
       {| m_fname := f_name f; m_key := k; m_vals := vs; m_not := f_not f; m_out := o |} :: lower_groups f last_func out t
   end.
-Fixpoint lower_funcs (fs : list func) (out : func) : list matchset :=
+(* RulesBuilder.Apply: since /repo dd2eef7 a condition whose value list is empty (len(keyOrder) == 0) is a build
+   error ("condition ... has no values"); None = that error.  A rule without any condition yields no match set
+   (the grammar never produces one). *)
+Fixpoint lower_funcs (fs : list func) (out : func) : option (list matchset) :=
   match fs with
-  | [] => []
-  | f :: t => (lower_groups f (match t with [] => true | _ => false end) out (group_params (f_params f))
-               ++ lower_funcs t out)%list
+  | [] => Some []
+  | f :: t =>
+      match group_params (f_params f) with
+      | [] => None
+      | gs => match lower_funcs t out with
+              | Some l => Some (lower_groups f (match t with [] => true | _ => false end) out gs ++ l)%list
+              | None => None
+              end
+      end
   end.
-Definition lower (rules : list rule) : list matchset :=
-  flat_map (fun r => lower_funcs (r_funcs r) (r_out r)) rules.
+Fixpoint lower (rules : list rule) : option (list matchset) :=
+  match rules with
+  | [] => Some []
+  | r :: t => match lower_funcs (r_funcs r) (r_out r) with
+              | None => None
+              | Some a => match lower t with Some b => Some (a ++ b)%list | None => None end
+              end
+  end.
+
+(* what the compiled program does with a packet *)
+Inductive compiled (D : Type) := CBuildError | CNoHit | CDecision (d : option D * bool).
+Arguments CBuildError {D}. Arguments CNoHit {D}. Arguments CDecision {D} d.
 
 Section Scan.
   Variable packet : Type.
@@ -354,6 +373,12 @@ Section Scan.
         end
     end.
 
-  Definition compiled_decision (rules : list rule) (pk : packet) : option (option D * bool) :=
-    scan (lower rules) pk false false false.
+  Definition compiled_decision (rules : list rule) (pk : packet) : compiled D :=
+    match lower rules with
+    | None => CBuildError
+    | Some ms => match scan ms pk false false false with
+                 | None => CNoHit
+                 | Some d => CDecision d
+                 end
+    end.
 End Scan.
